@@ -127,6 +127,16 @@ META = {
         assumptions=["one resource; no foreign writer between phase one and rollback (that is C09)"],
         timeout=1800,
     ),
+    "C09": dict(
+        rule="AT programs as in C01 (data validation on) followed, between local commit and rollback, by 0-2 foreign "
+             "statements aimed at rows the branches wrote: change a written or unwritten column, delete the row, "
+             "re-insert a deleted key; then branch-by-branch rollback. Observed: statuses, table, undo_log; the oracle "
+             "computes from the decoded images which rows differ from both before and after image and requires them "
+             "untouched and the transaction not answered rollbacked. non-trivial = at least one foreign write applied",
+        trusted=["memdb; fakecoord; foreign writes go straight to the engine (Engine.Exec)"],
+        assumptions=[],
+        timeout=1800,
+    ),
 }
 
 def _member(impl, model):
